@@ -91,6 +91,9 @@ MUTANTS = [
      r'\} else if let Some\(addr\) = new_address\.strip_prefix\("unix:"\) \{', '} else if let Some(addr) = new_address.strip_prefix("unix") {', {"C16"}),
     ("server-unknown-scheme-under-activation-accepted", "varlink/src/server.rs",
      r'(Some\(UnixListener::from_raw_fd\(l as RawFd\)\),\s*true,\s*\)\);\s*\}\s*\} else \{)\s*return Err\(context!\(ErrorKind::InvalidAddress\)\);', r"\1\n                    unsafe { return Ok(Listener::UNIX(Some(UnixListener::from_raw_fd(l as RawFd)), true)); }", {"C16"}),
+    ("upgraded-handler-entered-after-a-read", "varlink/src/lib.rs",
+     r"(loop \{)\s*(if let Some\(iface\) = upgraded_iface \{\s*let mut call = Call::new_upgraded\(writer\);\s*let unread = self\.call_upgraded\(&iface, &mut call, &mut bufreader\)\?;\s*return Ok\(\(unread, Some\(iface\)\)\);\s*\})\s*(let mut buf = Vec::new\(\);\s*let len = bufreader\s*\.read_until\(b'\\0', &mut buf\)\s*\.map_err\(map_context!\(\)\)\?;)",
+     r"\1\n            \3\n            \2", {"C02"}),
     ("listen-drops-upgrade-tail", "varlink/src/server.rs",
      r"unread = if i\.is_some\(\) \{ rest \} else \{ Vec::new\(\) \};", "let _ = rest;", {"C02", "C01"}),
 ]
